@@ -25,7 +25,7 @@ add("C12", "proof",
 
 add("C13", "proof",
     "Contracts on the real packers/unpackers (polyEta/T1/T0/Z/W1 Pack and Unpack), key layouts (packPk/unpackPk/packSk/unpackSk) and unpackSig: each states the FIPS 204 bit-packing relation 'packed bytes read as a little-endian integer = coefficient offsets read as base-2^b digits' per block, for every value in range and every block position (symbolic block index), plus lemmas that in-range digits are unique (unpack(pack(v)) = v, pack(unpack(b)) = b) and unpackSig accepts exactly the canonical hint encodings. Discharged for all inputs.",
-    "Signature level: packSig is proved to write the challenge, the z packing and the hint encoding (cumulative count bytes, strictly increasing positions per row, zero padding), unpackSig is proved to decode exactly the listed positions, and the lemma function verifLemmaSigRoundTrip proves unpackSig(packSig(c,z,h)) = (c,z,h) with acceptance for every in-range z and every binary hint vector of weight <= omega. The converse, packSig(unpackSig(s)) = s byte for byte for every accepted s, is proved by the lemma function verifLemmaSigReencode: unpackSig additionally proves that the decoded hint rows have exactly the weights the count bytes announce (weight lemmas by induction), and two strictly increasing enumerations of the same set over the same index range are equal (lemmas L_adj_mono, L_enum_eq by induction), so the position bytes, the count bytes, the zero padding, the z part (digit uniqueness) and the challenge all agree. Trusted: govc, solvers, spec reading of FIPS 204 algorithms 16-21.",
+    "Key level: the lemma functions verifLemmaPkRoundTrip / verifLemmaSkRoundTrip prove unpackPk(packPk(rho,t1)) = (rho,t1) and unpackSk(packSk(...)) = the same six components on the real packers, for every value in range (digit-uniqueness lemmas in scalar form). Signature level: packSig is proved to write the challenge, the z packing and the hint encoding (cumulative count bytes, strictly increasing positions per row, zero padding), unpackSig is proved to decode exactly the listed positions, and the lemma function verifLemmaSigRoundTrip proves unpackSig(packSig(c,z,h)) = (c,z,h) with acceptance for every in-range z and every binary hint vector of weight <= omega. The converse, packSig(unpackSig(s)) = s byte for byte for every accepted s, is proved by the lemma function verifLemmaSigReencode: unpackSig additionally proves that the decoded hint rows have exactly the weights the count bytes announce (weight lemmas by induction), and two strictly increasing enumerations of the same set over the same index range are equal (lemmas L_adj_mono, L_enum_eq by induction), so the position bytes, the count bytes, the zero padding, the z part (digit uniqueness) and the challenge all agree. Trusted: govc, solvers, spec reading of FIPS 204 algorithms 16-21.",
     "contract-based deductive verification: VCs from the typed Go AST of /repo, exact machine-integer encoding with arithmetic bit-operation identities, z3/cvc5",
     "DESIGN.md section 4 C13")
 add("C14", "proof",
